@@ -36,7 +36,7 @@ Proof. intros H. induction l; cbn; auto. rewrite H, IHl. reflexivity. Qed.
 
 Section SwFuns.
   Variables (c : list (option value)) (k : list closure) (s : state).
-  Let s' := sw c k s.
+  Notation s' := (sw c k s).
 
   Lemma truth_sw v : truth s' v = truth s v.
   Proof. destruct v; reflexivity. Qed.
@@ -44,18 +44,18 @@ Section SwFuns.
   Proof.
     revert v. induction n as [|n IH]; intros v; [reflexivity|]. destruct v; cbn [obs_of]; try reflexivity.
     - f_equal. apply map_ext. exact IH.
-    - cbn [lists s' sw]. destruct (nth_error (lists s) a) as [[l ?]|]; [|reflexivity]. f_equal. apply map_ext. exact IH.
-    - cbn [dicts s' sw]. destruct (nth_error (dicts s) a) as [[l ?]|]; [|reflexivity]. f_equal. apply map_ext.
+    - cbn [lists sw]. destruct (nth_error (lists s) a) as [[l ?]|]; [|reflexivity]. f_equal. apply map_ext. exact IH.
+    - cbn [dicts sw]. destruct (nth_error (dicts s) a) as [[l ?]|]; [|reflexivity]. f_equal. apply map_ext.
       intros kv. rewrite !IH. reflexivity.
   Qed.
   Lemma veq_sw n a b : veq n s' a b = veq n s a b.
   Proof.
     revert a b. induction n as [|n IH]; intros a b; [reflexivity|]. destruct a, b; cbn [veq]; try reflexivity.
     - apply forall2b_ext. exact IH.
-    - cbn [lists s' sw]. destruct (Nat.eqb a a0); [reflexivity|].
+    - cbn [lists sw]. destruct (Nat.eqb a a0); [reflexivity|].
       destruct (nth_error (lists s) a) as [[l1 ?]|], (nth_error (lists s) a0) as [[l2 ?]|]; try reflexivity.
       apply forall2b_ext. exact IH.
-    - cbn [dicts s' sw]. destruct (Nat.eqb a a0); [reflexivity|].
+    - cbn [dicts sw]. destruct (Nat.eqb a a0); [reflexivity|].
       destruct (nth_error (dicts s) a) as [[l1 ?]|], (nth_error (dicts s) a0) as [[l2 ?]|]; try reflexivity.
       f_equal. apply forallb_ext'. intros kv. apply existsb_ext'. intros kv'. rewrite !IH. reflexivity.
   Qed.
@@ -63,37 +63,43 @@ Section SwFuns.
   Proof.
     revert a b. induction n as [|n IH]; intros a b; [reflexivity|]. destruct a, b; cbn [vcmp]; try reflexivity.
     - apply lex_cmp_ext. exact IH.
-    - cbn [lists s' sw]. destruct (nth_error (lists s) a) as [[l1 ?]|], (nth_error (lists s) a0) as [[l2 ?]|]; try reflexivity.
+    - cbn [lists sw]. destruct (nth_error (lists s) a) as [[l1 ?]|], (nth_error (lists s) a0) as [[l2 ?]|]; try reflexivity.
       apply lex_cmp_ext. exact IH.
   Qed.
+  Lemma veqd_sw a b : veq depth s' a b = veq depth s a b.
+  Proof. apply veq_sw. Qed.
+  Lemma vcmpd_sw a b : vcmp depth s' a b = vcmp depth s a b.
+  Proof. apply vcmp_sw. Qed.
+  Lemma obsd_sw v : obs_of depth s' v = obs_of depth s v.
+  Proof. apply obs_of_sw. Qed.
   Lemma memb_sw x l : memb s' x l = memb s x l.
-  Proof. induction l; cbn [memb]; auto. rewrite veq_sw, IHl. reflexivity. Qed.
+  Proof. induction l as [|y l IH]; cbn [memb]; [reflexivity|]. rewrite (veqd_sw x y), IH. reflexivity. Qed.
   Lemma dict_get_sw d x : dict_get s' d x = dict_get s d x.
-  Proof. induction d as [|[k' v] d IH]; cbn [dict_get]; auto. rewrite veq_sw, IH. reflexivity. Qed.
+  Proof. induction d as [|[k' v] d IH]; cbn [dict_get]; [reflexivity|]. rewrite (veqd_sw x k'), IH. reflexivity. Qed.
   Lemma dict_set_sw d x v : dict_set s' d x v = dict_set s d x v.
-  Proof. induction d as [|[k' v'] d IH]; cbn [dict_set]; auto. rewrite veq_sw, IH. reflexivity. Qed.
+  Proof. induction d as [|[k' v'] d IH]; cbn [dict_set]; [reflexivity|]. rewrite (veqd_sw x k'), IH. reflexivity. Qed.
   Lemma dict_del_sw d x : dict_del s' d x = dict_del s d x.
-  Proof. induction d as [|[k' v'] d IH]; cbn [dict_del]; auto. rewrite veq_sw, IH. reflexivity. Qed.
+  Proof. induction d as [|[k' v'] d IH]; cbn [dict_del]; [reflexivity|]. rewrite (veqd_sw x k'), IH. reflexivity. Qed.
   Lemma dict_update_sw kvs : forall d, dict_update s' d kvs = dict_update s d kvs.
-  Proof. induction kvs as [|[k' v'] kvs IH]; intros d; cbn [dict_update]; auto. rewrite dict_set_sw, IH. reflexivity. Qed.
+  Proof. induction kvs as [|[k' v'] kvs IH]; intros d; cbn [dict_update]; [reflexivity|]. rewrite dict_set_sw, IH. reflexivity. Qed.
   Lemma insert_sorted_sw x l : insert_sorted s' x l = insert_sorted s x l.
-  Proof. induction l; cbn [insert_sorted]; auto. rewrite vcmp_sw, IHl. reflexivity. Qed.
+  Proof. induction l as [|y l IH]; cbn [insert_sorted]; [reflexivity|]. rewrite (vcmpd_sw x y), IH. reflexivity. Qed.
   Lemma sort_values_sw l : sort_values s' l = sort_values s l.
-  Proof. induction l; cbn [sort_values]; auto. rewrite IHl. destruct (sort_values s l); auto. apply insert_sorted_sw. Qed.
+  Proof. induction l as [|y l IH]; cbn [sort_values]; [reflexivity|]. rewrite IH. destruct (sort_values s l); [|reflexivity]. apply insert_sorted_sw. Qed.
   Lemma insert_pair_sw p l : insert_pair s' p l = insert_pair s p l.
-  Proof. induction l; cbn [insert_pair]; auto. rewrite vcmp_sw, IHl. reflexivity. Qed.
+  Proof. induction l as [|y l IH]; cbn [insert_pair]; [reflexivity|]. rewrite (vcmpd_sw (fst p) (fst y)), IH. reflexivity. Qed.
   Lemma sort_pairs_sw l : sort_pairs s' l = sort_pairs s l.
-  Proof. induction l; cbn [sort_pairs]; auto. rewrite IHl. destruct (sort_pairs s l); auto. apply insert_pair_sw. Qed.
+  Proof. induction l as [|y l IH]; cbn [sort_pairs]; [reflexivity|]. rewrite IH. destruct (sort_pairs s l); [|reflexivity]. apply insert_pair_sw. Qed.
   Lemma sort_pairs_dir_sw b l : sort_pairs_dir s' b l = sort_pairs_dir s b l.
   Proof. unfold sort_pairs_dir. rewrite !sort_pairs_sw. reflexivity. Qed.
   Lemma extremum_sw w l : forall b, extremum s' w b l = extremum s w b l.
-  Proof. induction l; intros b; cbn [extremum]; auto. rewrite vcmp_sw. destruct (vcmp depth s a b); auto. Qed.
+  Proof. induction l as [|y l IH]; intros b; cbn [extremum]; [reflexivity|]. rewrite (vcmpd_sw y b). destruct (vcmp depth s y b); [|reflexivity]. apply IH. Qed.
   Lemma remove_first_sw x l : remove_first s' x l = remove_first s x l.
-  Proof. induction l; cbn [remove_first]; auto. rewrite veq_sw, IHl. reflexivity. Qed.
+  Proof. induction l as [|y l IH]; cbn [remove_first]; [reflexivity|]. rewrite (veqd_sw x y), IH. reflexivity. Qed.
   Lemma index_of_sw x l : forall i, Sem.index_of s' x l i = Sem.index_of s x l i.
-  Proof. induction l; intros i; cbn [Sem.index_of]; auto. rewrite veq_sw, IHl. reflexivity. Qed.
-  Lemma map_obs_sw n l : map (obs_of n s') l = map (obs_of n s) l.
-  Proof. apply map_ext. apply obs_of_sw. Qed.
+  Proof. induction l as [|y l IH]; intros i; cbn [Sem.index_of]; [reflexivity|]. rewrite (veqd_sw x y), IH. reflexivity. Qed.
+  Lemma map_obs_sw l : map (obs_of depth s') l = map (obs_of depth s) l.
+  Proof. apply map_ext. apply obsd_sw. Qed.
   Lemma existsb_truth_sw l : existsb (truth s') l = existsb (truth s) l.
   Proof. apply existsb_ext'. apply truth_sw. Qed.
   Lemma forallb_truth_sw l : forallb (truth s') l = forallb (truth s) l.
@@ -102,7 +108,7 @@ End SwFuns.
 
 Ltac sw_rw :=
   repeat first
-    [ rewrite truth_sw | rewrite obs_of_sw | rewrite veq_sw | rewrite vcmp_sw | rewrite memb_sw
+    [ rewrite truth_sw | rewrite obsd_sw | rewrite veqd_sw | rewrite vcmpd_sw | rewrite memb_sw
     | rewrite dict_get_sw | rewrite dict_set_sw | rewrite dict_del_sw | rewrite dict_update_sw
     | rewrite sort_values_sw | rewrite sort_pairs_dir_sw | rewrite extremum_sw | rewrite remove_first_sw
     | rewrite index_of_sw | rewrite map_obs_sw | rewrite existsb_truth_sw | rewrite forallb_truth_sw ].
@@ -220,4 +226,25 @@ Lemma pure_unop_eval o a : pure_op (unop_eval o a).
 Proof.
   unfold unop_eval. destruct o, a; try apply pure_ret; try apply pure_fail;
   (apply pure_get_state; [intro; apply pure_ret|intros; sw_rw; reflexivity]).
+Qed.
+
+Lemma pure_index_eval a i : pure_op (index_eval a i).
+Proof.
+  unfold index_eval. destruct a; try apply pure_fail; pure_tac.
+  intros; sw_rw; reflexivity.
+Qed.
+
+Lemma pure_opt_int v : pure_op (opt_int v).
+Proof. unfold opt_int. pure_tac. Qed.
+
+Lemma pure_slice_eval a lo hi st : pure_op (slice_eval a lo hi st).
+Proof.
+  unfold slice_eval. apply pure_bind; [apply pure_opt_int|intro]. apply pure_bind; [apply pure_opt_int|intro].
+  apply pure_bind; [apply pure_opt_int|intro]. destruct a; pure_tac.
+Qed.
+
+Lemma pure_set_index a i v : pure_op (set_index a i v).
+Proof.
+  unfold set_index. destruct a; try apply pure_fail; pure_tac.
+  intros; sw_rw; reflexivity.
 Qed.
